@@ -212,13 +212,45 @@ def check(ctx: Ctx) -> list[RuleResult]:
         r5.ok({"builder": norm(gp[0])[:60], "decoder": norm(dp[0])[:60], "same_function": True})
     else:
         r5.fail("opentherm:parity-fn", g.loc(), "get_opentherm_data and decode_frame no longer use the same parity function")
-    # builder: `<..80..> if parity(msg_id) else <..00..>`, the two literals differing only in the parity byte
+    # builder: the payload text under "parity(msg_id) is true" and under "is false" (every conditional on parity() resolved either
+    # way, locals copy-propagated, f-string/+/format alike) differs in the parity byte only: 0x80 iff parity
+    from ..predeval import _clone
+    from .common import expand as _expand, str_template as _tmpl
+
+    def _is_parity_test(t: ast.expr) -> bool:
+        return isinstance(t, ast.Call) and norm(t.func) == "parity"
+
+    # `if parity(x): v = A  else: v = B`  ==  v = A if parity(x) else B
+    synth: dict[str, ast.expr] = {}
+    for st in own_nodes(g.node):
+        if isinstance(st, ast.If) and _is_parity_test(st.test) and len(st.body) == 1 and len(st.orelse) == 1 and all(isinstance(x, ast.Assign) and len(x.targets) == 1 and isinstance(x.targets[0], ast.Name) for x in (st.body[0], st.orelse[0])) and st.body[0].targets[0].id == st.orelse[0].targets[0].id:
+            synth[st.body[0].targets[0].id] = ast.IfExp(test=st.test, body=st.body[0].value, orelse=st.orelse[0].value)
+
+    def _specialise(e: ast.AST, val: bool) -> ast.AST:
+        if isinstance(e, ast.IfExp) and _is_parity_test(e.test):
+            return _specialise(e.body if val else e.orelse, val)
+        if isinstance(e, ast.Name) and e.id in synth:
+            return _specialise(synth[e.id], val)
+        if isinstance(e, ast.AST):
+            new = type(e)()
+            for fld in e._fields:
+                v = getattr(e, fld, None)
+                setattr(new, fld, [_specialise(x, val) for x in v] if isinstance(v, list) else _specialise(v, val))
+            return new
+        return e
+
     ok_b = False
+    pay = None
     for n in own_nodes(g.node):
-        if isinstance(n, ast.IfExp) and isinstance(n.test, ast.Call) and norm(n.test.func) == "parity" and isinstance(n.body, ast.JoinedStr) and isinstance(n.orelse, ast.JoinedStr):
-            t1 = [v.value if isinstance(v, ast.Constant) else norm(v) for v in n.body.values]
-            t2 = [v.value if isinstance(v, ast.Constant) else norm(v) for v in n.orelse.values]
-            if len(t1) == len(t2) and t1[1:] == t2[1:] and isinstance(t1[0], str) and isinstance(t2[0], str) and t1[0][:2] == t2[0][:2] == "00" and t1[0][2:4] == "80" and t2[0][2:4] == "00" and t1[0][4:] == t2[0][4:]:
+        if isinstance(n, ast.Call) and isinstance(n.func, ast.Attribute) and n.func.attr == "from_attrs" and len(n.args) >= 4:
+            pay = n.args[3]
+    if pay is not None:
+        full = _expand(g.node, pay, pure_only=False)
+        t_true, t_false = _tmpl(g.node, _specialise(full, True)), _tmpl(g.node, _specialise(full, False))  # type: ignore[arg-type]
+        if len(t_true) == len(t_false) and all(a0[0] == b0[0] for a0, b0 in zip(t_true, t_false)) and all(a0 == b0 for a0, b0 in zip(t_true, t_false) if a0[0] == "var") and t_true and t_true[0][0] == "lit" and t_false[0][0] == "lit":
+            l1, l2 = t_true[0][1], t_false[0][1]
+            rest_same = [a0 for a0 in t_true[1:] if a0[0] == "lit"] == [b0 for b0 in t_false[1:] if b0[0] == "lit"]
+            if rest_same and l1[:2] == l2[:2] == "00" and l1[2:4] == "80" and l2[2:4] == "00" and l1[4:] == l2[4:]:
                 ok_b = True
     # decoder: `int(frame[:2], 16) // 0x80 != parity(int(frame, 16) & 0x7FFFFFFF)` guards a raise
     ok_d = False
